@@ -133,6 +133,12 @@ def run(case):
                 if o[5] == "df" and recs:
                     import pandas as pd
                     df = pd.DataFrame(recs, columns=["segment", "track", "label"])
+                    # columns are read by name: any column order, extra columns or not
+                    order = [["segment", "track", "label"], ["label", "segment", "track"], ["track", "label", "segment"],
+                             ["label", "track", "segment"]][len(recs) % 4]
+                    df = df[order]
+                    if len(recs) % 3 == 0:
+                        df = df.assign(score=1.0)[["score"] + order]
                     regs[o[1]] = Annotation.from_df(df, uri=o[3], modality=o[4])
                 else:
                     regs[o[1]] = Annotation.from_records(iter(recs), uri=o[3], modality=o[4])
